@@ -2,6 +2,7 @@ package rules
 
 import (
 	"fmt"
+	"strconv"
 	"strings"
 	"testing"
 
@@ -36,7 +37,11 @@ func (c C14Case) args() []string {
 		case t.Flag == "?":
 			a = append(a, t.Val)
 		case t.Flag == "D":
-			a = append(a, []string{"-D", "-D", "--D", "--D"}[t.Form%4])
+			d := []string{"-D", "-D", "--D", "--D"}[t.Form%4]
+			if t.Val != "" {
+				d += "=" + t.Val // the boolean value syntax of Go's flag package: -D=false is still a -D on the line
+			}
+			a = append(a, d)
 		default:
 			dash := "-"
 			if t.Form >= 2 {
@@ -101,7 +106,7 @@ func genC14(t *rapid.T) C14Case {
 		case 10:
 			c.Toks = append(c.Toks, Tok{Flag: "w", Form: form(), Val: rapid.SampledFrom([]string{"/etc/passwd", "/tmp/my file", "/a", "rel/path", ""}).Draw(t, "w")})
 		case 11:
-			c.Toks = append(c.Toks, Tok{Flag: "D", Form: form()})
+			c.Toks = append(c.Toks, Tok{Flag: "D", Form: form(), Val: rapid.SampledFrom([]string{"", "", "", "false", "true", "0", "1", "f", "F", "FALSE", "t", "bogus", "no"}).Draw(t, "Dval")})
 		case 12:
 			c.Toks = append(c.Toks, Tok{Flag: "", Val: rapid.SampledFrom([]string{"extra", "--", "stray word", "-", "always,exit", "uid=0", "", "", " ", "0", "false"}).Draw(t, "stray")})
 		case 13:
@@ -231,6 +236,9 @@ func propC14(c C14Case) error {
 			unknown = true
 		case "D":
 			dflag = true
+			if _, err := strconv.ParseBool(t.Val); t.Val != "" && err != nil {
+				unknown = true // not a boolean: the line cannot be accepted without ignoring the value
+			}
 		case "a":
 			aArgs = append(aArgs, t.Val)
 		case "A":
